@@ -715,7 +715,7 @@ def direct_predicate(c, r):
         ds = [(f - r["ljb"][j], j) for f, j in zip(fd, c["fd_rows"]) if finite(f) and finite(r["ljb"][j])]
         if len(ds) >= 2:
             lo_, hi_ = min(ds), max(ds)
-            tol = 1e-4 * (1 + max(abs(r["ljb"][j]) for _, j in ds))
+            tol = 2e-3 * (1 + max(abs(r["ljb"][j]) for _, j in ds))
             if hi_[0] - lo_[0] > tol:
                 fails.append(("fd-jacobian",
                               f"finite-difference ln|det dx/dx'| of inverse_rescale minus the reported log_j_inv is not constant: "
@@ -1485,7 +1485,7 @@ def replay(data):
         lj = [res["ljb" if inv else "lj"][j] for j in rp["rows"]]
         # true ln|det J_f|(x) = - ln|det dx/dx'|(x'); reported - true = lj + fd (forward), ljb - fd (inverse)
         offs = [(a - b) if inv else (a + b) for a, b in zip(lj, fd)]
-        bad = len(offs) == 2 and all(finite(o) for o in offs) and abs(offs[0] - offs[1]) > 1e-4 * (1 + max(abs(v) for v in lj))
+        bad = len(offs) == 2 and all(finite(o) for o in offs) and abs(offs[0] - offs[1]) > 2e-3 * (1 + max(abs(v) for v in lj))
         print(json.dumps({"label": c.get("label"), "points": [c["points"][j] for j in rp["rows"]], "reported log_j": lj,
                           "finite-difference ln|det dx/dx'|": fd, "reported - true (must be one constant)": offs,
                           "enclosures recorded by the check": rp.get("enclosures(forward, inverse) at the two points")}, indent=1))
